@@ -722,3 +722,95 @@ func VerifC01_ForeachContainers() {
 	vrt.Reach("iterated")
 	vrt.Assert(n == cnt, "C01.foreach-container.visits-every-element")
 }
+
+func init() { vrt.Register("VerifC01_GetTree", VerifC01_GetTree) }
+
+// VerifC01_GetTree: Node.GetTree with a request tree three levels deep over S{3: Inner in; 5: list<Inner> ins},
+// Inner{1: i32 a; 2: string b}, in which absent entries (an unset field, an index past the end) are listed
+// BEFORE present siblings that have children of their own: every requested leaf that exists is returned with
+// the bytes the reference decoder finds there, every absent one is left empty.
+func VerifC01_GetTree() {
+	order := vrt.Param("ORDER") // 0: absent entries first, 1: absent entries last
+	inner := func(hasA bool, tag byte) ([]byte, []byte, []byte) {
+		var b, av []byte
+		if hasA {
+			av = vrt.PutBE32(nil, int(int32(vrt.U32())))
+			b = append(vrt.PutField(b, vrt.TI32, 1), av...)
+		}
+		sv := vrt.PutString(nil, []byte{tag, vrt.U8()})
+		b = append(vrt.PutField(b, vrt.TSTRING, 2), sv...)
+		return append(b, 0), av, sv
+	}
+	hasA0, hasA1, hasAi := vrt.Bool(), vrt.Bool(), vrt.Bool()
+	inB, inA, inS := inner(hasAi, 'i')
+	e0, e0A, e0S := inner(hasA0, '0')
+	e1, _, e1S := inner(hasA1, '1')
+	var b []byte
+	b = append(vrt.PutField(b, vrt.TSTRUCT, 3), inB...)
+	b = vrt.PutListHdr(vrt.PutField(b, vrt.TLIST, 5), vrt.TSTRUCT, 2)
+	b = append(append(b, e0...), e1...)
+	b = append(b, 0)
+
+	leaf := func(p Path) PathNode { return PathNode{Path: p} }
+	mix := func(absent []PathNode, present []PathNode) []PathNode {
+		if order == 0 {
+			return append(absent, present...)
+		}
+		return append(present, absent...)
+	}
+	el0 := PathNode{Path: NewPathIndex(0), Next: mix([]PathNode{leaf(NewPathFieldId(9))}, []PathNode{leaf(NewPathFieldId(1)), leaf(NewPathFieldId(2))})}
+	el1 := PathNode{Path: NewPathIndex(1), Next: []PathNode{leaf(NewPathFieldId(2))}}
+	ins := PathNode{Path: NewPathFieldId(5), Next: mix([]PathNode{leaf(NewPathIndex(2))}, []PathNode{el0, el1})}
+	in := PathNode{Path: NewPathFieldId(3), Next: mix([]PathNode{leaf(NewPathFieldId(9))}, []PathNode{leaf(NewPathFieldId(1)), leaf(NewPathFieldId(2))})}
+	tree := PathNode{Next: mix([]PathNode{leaf(NewPathFieldId(6))}, []PathNode{ins, in})}
+	err := NewNode(thrift.STRUCT, b).GetTree(&tree, &Options{})
+	vrt.Assert(err == nil, "C01.gettree.noerror")
+	if err != nil {
+		return
+	}
+	vrt.Reach("fetched")
+	find := func(ns []PathNode, p Path) *PathNode {
+		for i := range ns {
+			if ns[i].Path.t == p.t && ns[i].Path.l == p.l && ns[i].Path.v == p.v {
+				return &ns[i]
+			}
+		}
+		return nil
+	}
+	is := func(n *PathNode, want []byte, present bool, label string) {
+		vrt.Assert(n != nil, label+".requested-node-kept")
+		if n == nil {
+			return
+		}
+		if !present {
+			vrt.Assert(n.Node.IsEmpty() || n.Node.IsErrNotFound(), label+".absent-empty")
+			return
+		}
+		vrt.Assert(!n.Node.IsEmpty() && !n.Node.IsError(), label+".present-found")
+		if !n.Node.IsEmpty() && !n.Node.IsError() {
+			r := n.Node.Raw()
+			vrt.Assert(vrt.BytesEq(r, 0, len(r), want, 0, len(want)), label+".value")
+		}
+	}
+	tin := find(tree.Next, NewPathFieldId(3))
+	tins := find(tree.Next, NewPathFieldId(5))
+	is(find(tree.Next, NewPathFieldId(6)), nil, false, "C01.gettree.level1")
+	if tin != nil {
+		is(find(tin.Next, NewPathFieldId(1)), inA, hasAi, "C01.gettree.in.a")
+		is(find(tin.Next, NewPathFieldId(2)), inS, true, "C01.gettree.in.b")
+		is(find(tin.Next, NewPathFieldId(9)), nil, false, "C01.gettree.in.undeclared")
+	}
+	vrt.Assert(tin != nil && tins != nil, "C01.gettree.level1.kept")
+	if tins != nil {
+		is(find(tins.Next, NewPathIndex(2)), nil, false, "C01.gettree.ins.pastend")
+		t0, t1 := find(tins.Next, NewPathIndex(0)), find(tins.Next, NewPathIndex(1))
+		vrt.Assert(t0 != nil && t1 != nil, "C01.gettree.ins.elements-kept")
+		if t0 != nil {
+			is(find(t0.Next, NewPathFieldId(1)), e0A, hasA0, "C01.gettree.ins0.a")
+			is(find(t0.Next, NewPathFieldId(2)), e0S, true, "C01.gettree.ins0.b")
+		}
+		if t1 != nil {
+			is(find(t1.Next, NewPathFieldId(2)), e1S, true, "C01.gettree.ins1.b")
+		}
+	}
+}
